@@ -515,7 +515,7 @@ impl DnsListenerHandler {
 
             question: msg.in_query.question.clone(),
             answer: outr.answer.clone(),
-            nameserver: outr.answer.clone(),
+            nameserver: outr.nameserver.clone(),
             additional: outr.additional.clone(),
             edns: Some(edns),
         }
